@@ -3,7 +3,7 @@
    real `Program` after the `(ops ..)` shown above it (harness qv_types); the probes are replayed
    against the real code by ./check C09 (corpus/c09_probes.txt).  Membership is judged by the
    executable `inhabb` of Sem.v (walk fuel 64, cap 400, depth 6). *)
-From Quiver Require Import Base Types Rel Sem.
+From Quiver Require Import Base Types Rel Sem Narrow.
 From Coq Require Import Arith.
 Close Scope Z_scope.
 Open Scope nat_scope.
@@ -112,3 +112,55 @@ Lemma F29_as_found : compat_violation fixed_cfg reg_Pname 1 2 v_Pname = true.
 Proof. vm_compute. reflexivity. Qed.
 Lemma F29_repaired : is_compatible_with current_cfg 1000 reg_Pname 1 2 = Some false.
 Proof. vm_compute. reflexivity. Qed.
+
+(* F24: complement(muX. N1 | N0[X] | bin, bin) = muY. N1 | N0[Y], which drops N0[bin] *)
+Definition reg_F24 : registry :=
+  mk_reg [mk_tuple None []; mk_tuple (Some name_ok) []; mk_tuple (Some 1) []; mk_tuple (Some 0) [(None, 2)]]
+         [TBinary; TTuple 2; TCycle 1; TTuple 3; TUnion [1; 3; 0]].
+Definition v_F24 : value := tup 0 [VBin []].
+
+(* a violation of complement_keeps: v is in o, not in nr, and not in compute_complement o nr *)
+Definition complement_violation (cfg : rel_cfg) (P : registry) (o nr : nat) (v : value) : bool :=
+  closedb P o && closedb P nr &&
+  match compute_complement cfg 1000 1000 P o nr with
+  | Some (P', r) => memb P v o && negb (memb P v nr) && negb (memb P' v r)
+  | None => false
+  end.
+
+(* a violation of intersect_keeps: v is in a and in b, and not in intersect_types a b *)
+Definition intersect_violation (cfg : rel_cfg) (P : registry) (a b : nat) (v : value) : bool :=
+  closedb P a && closedb P b &&
+  match intersect_types cfg 1000 1000 P a b with
+  | Some (P', r) => memb P v a && memb P v b && negb (memb P' v r)
+  | None => false
+  end.
+
+Lemma F24_current : complement_violation current_cfg reg_F24 4 0 v_F24 = true.
+Proof. vm_compute. reflexivity. Qed.
+
+(* F25 through intersect_types: fn(int)->int /\ fn(bin)->int = never although fn(int|bin)->int is in both *)
+Lemma F25_intersect_current : intersect_violation current_cfg reg_F25fn 3 4 (VFun 6) = true.
+Proof. vm_compute. reflexivity. Qed.
+
+(* filter_variants_by_field: parent = A[x: int|bin] | B[x: int]; after a test of field x against int
+   succeeded the code keeps only B (A's field type is not ASSIGNABLE to int), dropping A[x: 5] *)
+Definition reg_filter : registry :=
+  mk_reg [mk_tuple None []; mk_tuple (Some name_ok) []; mk_tuple (Some 0) [(Some 0, 2)]; mk_tuple (Some 1) [(Some 0, 0)]]
+         [TInteger; TBinary; TUnion [0; 1]; TTuple 2; TTuple 3; TUnion [3; 4]].
+Definition v_filter : value := VTup (Some 0) [(Some 0, VInt 0%Z)].
+
+(* a violation of filter_keeps: the tuple value is in the parent, its field idx is in `must`, and the
+   value is not in filter_variants_by_field's result *)
+Definition filter_violation (cfg : rel_cfg) (by_overlap : bool) (P : registry) (parent idx must : nat) (v fv : value) : bool :=
+  closedb P parent && closedb P must &&
+  match filter_variants_by_field cfg 1000 by_overlap P parent idx must with
+  | Some (P', r) => memb P v parent && memb P fv must && negb (memb P' v r)
+  | None => false
+  end.
+
+Lemma filter_current : filter_violation current_cfg current_filter_by_overlap reg_filter 5 0 0 v_filter (VInt 0%Z) = true.
+Proof. vm_compute. reflexivity. Qed.
+Lemma filter_proposed_repair : filter_violation current_cfg true reg_filter 5 0 0 v_filter (VInt 0%Z) = false
+  /\ match filter_variants_by_field current_cfg 1000 true reg_filter 5 0 0 with
+     | Some (P', r) => memb P' v_filter r | None => false end = true.
+Proof. vm_compute. split; reflexivity. Qed.
